@@ -61,6 +61,19 @@ def model_draws(state, model):
     return out
 
 
+def static_assert_msgs(prog, full):
+    """messages of the verifAssert call sites written in the harness entry (constant second argument)"""
+    out = set()
+    for b in prog['funcs'][full]['blocks']:
+        for ins in b['instrs']:
+            c = ins.get('call')
+            if ins.get('op') == 'Call' and c and c.get('fn', {}).get('k') == 'func' and c['fn']['n'].endswith('.verifAssert') and len(c['args']) > 1 and c['args'][1].get('k') == 'const':
+                v = c['args'][1].get('v', c['args'][1].get('val'))
+                if isinstance(v, str):
+                    out.add(v)
+    return out
+
+
 def run_entry(run, prog, entry, stub_map, loop_bound=8, max_paths=5000, timeout_ms=30000, label=None, trace_calls=()):
     """symbolically execute one harness; records one obligation per reached assertion / implicit check class. Returns (results, exec)"""
     full = entry if entry in prog['funcs'] else None
@@ -82,15 +95,24 @@ def run_entry(run, prog, entry, stub_map, loop_bound=8, max_paths=5000, timeout_
         run.obligation('%s: symbolic execution completes' % (label or entry), 'unsupported', 'unsat', time.time() - t)
         return [], ex
     secs = time.time() - t
-    if ex.incomplete:
-        run.inconclusive.append('%s: exploration incomplete: %s' % (entry, ex.incomplete))
-        run.obligation('%s: symbolic execution completes' % (label or entry), 'incomplete', 'unsat', secs)
     st = collections.Counter(r.status for r in res)
     reached = collections.Counter()
     for r in res:
         for e in r.state.events:
             if e[0] == 'assert':
                 reached[e[1]] += 1
+    if ex.incomplete:
+        # the budget cut the exploration. If every assertion written in the harness was reached and held on the finished paths and none of
+        # them failed, panicked or needed more unwinding, the result is a smaller bound (stated in the evidence), not a verdict about the tree;
+        # otherwise nothing can be said
+        static = static_assert_msgs(prog, full)
+        clean = all(r.status in ('ok', 'infeasible') for r in res) and st.get('ok', 0) >= 1
+        if clean and static and static <= set(reached):
+            run.reduced.append('%s: %s; all %d assertions of the harness were reached and hold on the %d finished paths' % (label or entry, ex.incomplete, len(static), st.get('ok', 0)))
+            run.obligation('%s: symbolic execution completes' % (label or entry), 'unsat', 'unsat', secs, reduced_bound=ex.incomplete)
+        else:
+            run.inconclusive.append('%s: exploration incomplete: %s' % (entry, ex.incomplete))
+            run.obligation('%s: symbolic execution completes' % (label or entry), 'incomplete', 'unsat', secs)
     failed = collections.defaultdict(list)
     for r in res:
         if r.status == 'assert':
